@@ -19,7 +19,7 @@ INVARIANTS = ["FitnessTransparent", "DemandTransparent", "OneRecordPerWrite", "N
 DUMMY = " Values = {}\n Fits = {}"
 LEVELS = [logging.DEBUG, logging.INFO, logging.WARNING]
 KNOWN = ["value", "demand", "supply", "utilisation", "allocation", "consumption", "target"]
-UNKNOWN = ["unknown1", "Value", "demand2", "targets"]
+UNKNOWN = ["unknown1", "Value", "demand2", "targets", "dummy field", "old-demand", "target.demand", "", "supply "]
 
 
 def stacks(maxdepth):
@@ -163,8 +163,23 @@ def execute(case):
                 else:
                     pool._allocation = op["v"] / 4
                 events.append(dict(op))
+            elif e == "Rename":
+                i = op["layer"] - 1
+                if i < len(stack) and stack[i] == "logger":
+                    newname = "vp.c16.run%d.layer%d.renamed%d" % (uid, i + 1, len(events))
+                    pylog = logging.getLogger(newname)
+                    pylog.setLevel(1)
+                    pylog.propagate = False
+                    h = Capture(sink, i + 1, [objs[i]])
+                    pylog.addHandler(h)
+                    cleanup.append((pylog, h))
+                    objs[i].name = newname
+                    meta[i + 1] = (newname, meta[i + 1][1])
+                    events.append({"e": "Rename", "layer": i + 1})
             elif e == "NewLogger":
                 msg = " ".join("%%(%s)s" % f for f in op["fields"]) or "no fields"
+                if op.get("literal"):
+                    msg += " 100%% of %%(x)s"  # an escaped percent sign is plain text, not a field
                 with warnings.catch_warnings():
                     warnings.simplefilter("ignore")
                     try:
@@ -194,6 +209,8 @@ def case_of_path(p, seed):
             ops.append({"e": "Read"})
         elif a["name"] == "PoolChange":
             ops.append({"e": "PoolChange", "attr": a["attr"], "v": a["v"]})
+        elif a["name"] == "Rename":
+            ops.append({"e": "Rename", "layer": a["v"]})
     return {"stack": p["init"]["stack"], "pool": p["init"]["pool"], "seed": seed, "ops": ops, "src": "tlc-simulate"}
 
 
@@ -206,13 +223,15 @@ def random_case(rnd):
             ops.append({"e": "Write", "v": rnd.choice([0, 1, 2, 3, 5, 8, 8, 13])})
         elif c < 0.65:
             ops.append({"e": "Read"})
+        elif c < 0.72 and "logger" in stack:
+            ops.append({"e": "Rename", "layer": rnd.choice([i + 1 for i, k in enumerate(stack) if k == "logger"])})
         elif c < 0.9:
             attr = rnd.choice(["demand", "supply", "util", "alloc"])
             ops.append({"e": "PoolChange", "attr": attr, "v": rnd.choice([0, 1, 2, 3, 5, 8]) if attr in ("demand", "supply") else rnd.randrange(0, 5)})
         else:
             fields = rnd.sample(KNOWN, rnd.randrange(0, 4)) + (rnd.sample(UNKNOWN, rnd.randrange(1, 3)) if rnd.random() < 0.5 else [])
             rnd.shuffle(fields)
-            ops.append({"e": "NewLogger", "fields": fields})
+            ops.append({"e": "NewLogger", "fields": fields, "literal": rnd.random() < 0.3})
     return {"stack": stack, "pool": {"supply": rnd.choice([0, 2, 5]), "demand": rnd.choice([0, 1, 3, 8]), "util": rnd.randrange(0, 5), "alloc": rnd.randrange(0, 5)}, "seed": rnd.randrange(1 << 30), "ops": ops, "src": "random"}
 
 
